@@ -42,6 +42,11 @@ type Job struct {
 	Files   []string `json:"files,omitempty"`  // non-empty: Session.BuildFiles with this list, in this order
 	Before  []string `json:"before,omitempty"` // import paths of commands built (and written) earlier in the same session
 	Dump    bool     `json:"dump"`             // report the instance sets (numeric ids = positions)
+	// GoPath: the scenario lives in $GoPath/src/vp and the child resolves packages in GOPATH mode
+	// (GO111MODULE=off).  In module mode go/build runs `go list` for every import of every build,
+	// which costs three to four times the compilation itself; the emitted JavaScript is the same in
+	// both modes (cross-checked in every run on one scenario).  Empty: module mode.
+	GoPath string `json:"gopath,omitempty"`
 }
 
 // Result is what the child prints as one JSON line.
@@ -78,6 +83,9 @@ func childMain(jobFile string) {
 		emit()
 	}
 	gjs.Init()
+	if j.GoPath != "" {
+		os.Setenv("GOFLAGS", "")
+	}
 	if err := os.Chdir(j.Dir); err != nil {
 		res.Err = err.Error()
 		emit()
@@ -194,6 +202,10 @@ func RunChild(j Job, timeout time.Duration) (*Result, error) {
 	}
 	cmd := exec.Command(exe, childArg, jf)
 	cmd.Dir = j.Dir
+	if j.GoPath != "" {
+		// (go/build reads these when the child process starts)
+		cmd.Env = append(os.Environ(), "GO111MODULE=off", "GOPATH="+j.GoPath, "GOFLAGS=")
+	}
 	var stderr strings.Builder
 	cmd.Stderr = &stderr
 	done := make(chan struct{})
